@@ -799,13 +799,60 @@ func logProp(rt *rapid.T, agg *aggStats, prop string, crash bool) {
 	}
 }
 
+// corpusReplayLog re-runs saved operation lists (shrunk failures of repaired defects).
+func corpusReplayLog(t *testing.T, prop string, crash bool) {
+	dir := os.Getenv("VERIF_CORPUS")
+	if dir == "" {
+		return
+	}
+	files, _ := filepath.Glob(filepath.Join(dir, "*.json"))
+	sort.Strings(files)
+	for _, f := range files {
+		b, err := ioutil.ReadFile(f)
+		if err != nil {
+			continue
+		}
+		var ff failFile
+		if json.Unmarshal(b, &ff) != nil || len(ff.Ops) == 0 {
+			continue
+		}
+		for choice := 0; choice < 2; choice++ {
+			seg, ops := 1024, ff.Ops
+			if ops[0].Op == "open" {
+				seg, ops = ops[0].Seg, ops[1:]
+			}
+			c, err := newLogCase(seg, crash, func(n int) int { return choice % n })
+			if err != nil {
+				t.Fatal(err)
+			}
+			var fail *logFail
+			for _, o := range ops {
+				if fail = c.do(o); fail != nil {
+					break
+				}
+			}
+			c.cleanup()
+			if fail != nil {
+				nf := failFile{Property: prop, Oracle: "logmodel", Key: fail.key, Msg: fail.msg, Deciding: true, Ops: ff.Ops}
+				p := writeFailFile(nf)
+				emit(map[string]interface{}{"h": "x", "fail": map[string]interface{}{"oracle": "logmodel", "key": fail.key, "msg": fail.msg, "deciding": true, "known": knownKeys()[fail.key], "file": p, "n": len(ff.Ops)}})
+				if !knownKeys()[fail.key] {
+					t.Fatalf("VIOLATION %s %s (corpus %s): %s", prop, fail.key, filepath.Base(f), fail.msg)
+				}
+			}
+		}
+	}
+}
+
 func TestVerif_C13(t *testing.T) {
+	corpusReplayLog(t, "C13", false)
 	agg := newAgg()
 	defer agg.flush()
 	rapid.Check(t, func(rt *rapid.T) { logProp(rt, agg, "C13", false) })
 }
 
 func TestVerif_C14(t *testing.T) {
+	corpusReplayLog(t, "C14", true)
 	agg := newAgg()
 	defer agg.flush()
 	rapid.Check(t, func(rt *rapid.T) { logProp(rt, agg, "C14", true) })
